@@ -52,7 +52,11 @@ RULE = ("Every run is driven per INVOCATION of the real main(): the operator mod
         "fixed=1); async (orders that violate data dependence: correspondence only, outside the property's quantifier); "
         "examine (random trees with gaps, unsorted / two-digit indices, missing markers, empty iteration directories "
         "against examine_output_dir_to_determine_current_iteration); crash_free (closed-form ideal run against the real "
-        "uninterrupted run: ONE invocation = n launches + one returning call / exactly batch-size launches, then main() returns).  Non-trivial: at least one crash or a non-empty tree; distinct by case description.")
+        "uninterrupted run: ONE invocation = n launches + one returning call / exactly batch-size launches, then main() returns); "
+        "validate_initial (validate_initial_output_dir_and_get_result_files_as_dict on a job directory holding EVERY subset of the seven published "
+        "files - each required file missing in turn and in every combination - and with required files lying one directory level too high; "
+        "compared with Orchestrate.validate_initial and judged directly: the dict iff test.screen.h5, training.screen.h5 and screen_metadata.json exist, "
+        "naming this directory's own files and carrying its metadata; None iff the training screen or the metadata is missing; IndexError iff only the test screen is).  Non-trivial: at least one crash or a non-empty tree; distinct by case description.")
 THEOREMS = {
     "C19_resume_correct": "marker last + repaired examine (or batch size 1): after EVERY crash schedule, in both modes, the completed steps with the "
                           "commands that produced them and their recorded selections are exactly the first k steps of the uninterrupted run (retrospective: k <= n_plates)",
@@ -94,6 +98,18 @@ THEOREMS = {
     "C19_model_is_source_get_test_screen_from_job_output": "the whole helper (called by the translated retrospective step): it globs for training.screen.h5 = the model's has_training / SFile s KTraining",
     "C19_model_is_source_get_theta_and_dist_chunks": "the whole helper (called by both translated steps): ValueError unless thetas and distance chunks are both present = has_thetas_dist / AFail 2",
     "C19_model_is_source_get_selected_plates": "the whole helper (called by both translated steps): the contents of the selected_plate files of the iteration, None when there are none = selected_plates",
+    "C19_model_is_source_validate_initial_output_dir": "the WHOLE function validate_initial_output_dir_and_get_result_files_as_dict, re-translated on every run: for every job directory it equals the model's "
+                                                       "validate_initial - None when training.screen.h5 or screen_metadata.json is missing, IndexError (test_screen_glob[0]) when only test.screen.h5 is, "
+                                                       "else the dict {test_screen, training_screen, screen_metadata}",
+    "C19_model_is_source_validate_initial_accepts_iff": "the translated function returns the dict EXACTLY when the three files of Orchestrate.initial_required (test.screen.h5, training.screen.h5, "
+                                                        "screen_metadata.json) all exist; the dict names that directory's own test / training screen and carries the metadata stored there",
+    "C19_model_is_source_validate_initial_raises_iff": "the only exception of the translated function is the IndexError, raised exactly when training screen and metadata exist and the test screen does not, before anything is touched",
+    "C19_model_is_source_validate_initial_none_iff": "the translated function returns None exactly when the training screen or the metadata file is missing (whatever else exists)",
+    "C19_model_is_source_validate_initial_never_names": "the translated function never raises an error that names a directory for the operator to delete",
+    "C19_model_is_source_validate_initial_complete_run": "the model's notion of a complete initial step: a run of the initial workflow that complete_run counts as complete (all files `expected` of LInit "
+                                                         "published; the three required ones are among them) leaves a directory the translated function accepts, with the metadata that is there",
+    "C19_model_is_source_validate_initial_on_reachable_trees": "on EVERY tree the retrospective script reaches (any crash schedule, hypotheses of C19_resume_correct) a job directory iter_0/plate_0 that carries "
+                                                               "the completion marker is accepted by the translated function: dict with its test / training screen and n - 1 unobserved plates; never None, never the IndexError",
     "C19_model_is_source_run_initial_plate": "the WHOLE builder run_initial_plate, re-translated on every run and CALLED by the translated run_next_retrospective_step: the command line it builds (list of words + extra args), read "
                                              "the way main.nf reads it, is the launch LInit screen for job directory output_dir; a None screen is a TypeError before anything is started",
     "C19_model_is_source_run_first_batch_plate": "the same for run_first_batch_plate: --training_screen gets training_screen, --test_screen gets test_screen, --initialize false = LFirst training test",
@@ -178,7 +194,14 @@ EXPLANATION = ("Model: Model/Orchestrate.v (calls: attempt/script_run; invocatio
                "component, s.split('_') = the pieces between underscores, l[1] = second piece or IndexError, int(s) = the value of an unsigned ASCII decimal numeral (anything else: ValueError - Python's int also accepts a sign, "
                "surrounding white space and non-ASCII digits, which the model does not represent); proved to return i on '.../<prefix>_<numeral of i>', i.e. the index primitives iter_index / plate_index that examine's "
                "configuration gives to dir_sort_key(x) on the model value of 'iter_<i>' / 'plate_<j>' (i, j >= 0; a directory named e.g. iter_-1 or iter_1_old is outside the model).  examine itself still uses the index primitive "
-               "(its paths are model values, not names).  NOT translated: get_args, the path helpers get_main_nf_file / get_repository_root / get_script_location / get_nextflow_dir / get_base_config.")
+               "(its paths are model values, not names).  VALIDATE_INITIAL (C19_model_is_source_validate_initial_*): validate_initial_output_dir_and_get_result_files_as_dict (defined by the script, called by none of its functions) is re-translated as a "
+               "whole function (configuration C19_VALIDATE_INITIAL -> Generated/SrcOrchInit.v; proofs in a file of their own, Proofs/C19Source_ValidateInitial.v) over a globbed job directory ((i, j), its files).  From the "
+               "translation: the `or` of the two emptiness tests and the None return, the ORDER of the three [0] reads (the test screen first: that read is the IndexError), the with / json.load, which variable sits "
+               "under which key of the returned dict.  TRUSTED primitives: list(glob.glob(os.path.join(dir, '*', NAME))) for NAME = test.screen.h5 / training.screen.h5 = the one-or-no file of that kind "
+               "(glob_in_plate), for screen_metadata.json = [its n_unobserved_plates] or [] (glob_meta); len; l[0] (IndexError on []); open(path) / json.load = the value the file holds; the dict literal "
+               "{'test_screen': a, 'training_screen': b, 'screen_metadata': c} = the record mkif a b c.  The harness exercises the real function on every subset of the seven files (each required file missing "
+               "in turn), also with files one directory level too high, against the model (wire op 5) and against the specification written out in the predicate.  "
+               "NOT translated: get_args, the path helpers get_main_nf_file / get_repository_root / get_script_location / get_nextflow_dir / get_base_config.")
 
 KINDS = ["training", "test", "thetas", "dist", "selected", "advanced", "meta"]
 FILES = ["training.screen.h5", "test.screen.h5", "thetas_0.h5", "distance_matrix_chunk_0.h5", "selected_plate",
@@ -888,6 +911,21 @@ def gen(rng, tier):
     # examine on arbitrary trees
     for _ in range(300 if quick else 4000):
         yield dict(kind="examine", bs=rng.choice([0, 1, 1, 2, 2, 3, 4]), tree=rand_tree(rng))
+    # validate_initial_output_dir_and_get_result_files_as_dict on job directories of the initial step: EVERY subset of the seven
+    # published files (so each required file is missing in turn with all the others present, and in every combination), then
+    # the same with a required file lying at the wrong directory level (directly in the job directory: the glob is dir/*/name)
+    for mask in range(128):
+        yield dict(kind="validate_initial", step=[0, 0], pd=initial_pd(mask, rng), decoys=[])
+    for mask in ([127, 126, 125, 63, 124, 62, 61, 60, 0] if quick else range(128)):
+        for decoys in ([0], [1], [6], [0, 1, 6]):
+            yield dict(kind="validate_initial", step=rng.choice([[0, 0], [0, 0], [1, 0], [2, 3]]), pd=initial_pd(mask, rng), decoys=decoys)
+
+
+def initial_pd(mask, rng):
+    """plate directory contents [training?, test, thetas, dist, selected?, advanced?, meta?] with file k present iff bit k of mask"""
+    has = [bool(mask >> k & 1) for k in range(7)]
+    return [opt([0, 1, 2] if has[0] else None), int(has[1]), int(has[2]), int(has[3]), opt(0 if has[4] else None),
+            opt([1, 2] if has[5] else None), opt(rng.randint(0, 5) if has[6] else None)]
 
 
 def rand_tree(rng):
@@ -1022,6 +1060,56 @@ def run(desc):
             + (["two-digit-index"] if any(i >= 10 for i, _ in tree) else []) + (["named-dir"] if impl[0] == 1 else [])
         wire = [0, probed_fixed(), bs, [[i, [[j, pd + [[]]] for j, pd in pls]] for i, pls in tree]]
         return dict(wire=wire, impl=impl, pred=None, features=feats)
+    if k == "validate_initial":
+        (i, j), pd, decoys = desc["step"], desc["pd"], desc.get("decoys", [])
+        root = _tmpdir()
+        try:
+            write_tree(root, [[i, [[j, pd]]]])
+            d = os.path.join(root, "iter_%d" % i, "plate_%d" % j)
+            for kk in decoys:      # a file of the right name at the wrong level: dir/<file> instead of dir/<name>/<file>
+                with open(os.path.join(d, FILES[kk]), "w") as f:
+                    f.write(json.dumps({"n_unobserved_plates": 77}) if kk == 6 else "{}")
+            mod = load_script()
+            r0 = Runner.__new__(Runner)
+            r0.out, r0.scr_dir = root, None
+            want_files = {0: os.path.join(d, NAME, FILES[0]), 1: os.path.join(d, NAME, FILES[1])}
+            pred = None
+            try:
+                res = mod.validate_initial_output_dir_and_get_result_files_as_dict(d)
+                if res is None:
+                    impl = [0, []]
+                    if pd[0] and pd[6]:
+                        pred = ("returned None although training.screen.h5 and screen_metadata.json exist (test.screen.h5 %s)"
+                                % ("exists" if pd[1] else "is missing"))
+                elif isinstance(res, dict) and sorted(res) == ["screen_metadata", "test_screen", "training_screen"] \
+                        and isinstance(res["screen_metadata"], dict) and "n_unobserved_plates" in res["screen_metadata"]:
+                    impl = [0, [[r0.sp(res["test_screen"]), r0.sp(res["training_screen"]), res["screen_metadata"]["n_unobserved_plates"]]]]
+                    missing = [FILES[kk] for kk in (1, 0, 6) if not pd[kk]]
+                    if missing:
+                        pred = "accepted an initial directory in which %s is missing: returned %s" % (", ".join(missing), common.short(res, 300))
+                    elif res["test_screen"] != want_files[1] or res["training_screen"] != want_files[0] \
+                            or not all(os.path.isfile(res[x]) for x in ("test_screen", "training_screen")):
+                        pred = "the returned dict does not name this directory's own test / training screen: %s" % common.short(res, 300)
+                    elif res["screen_metadata"] != {"n_unobserved_plates": pd[6][0]}:
+                        pred = "the returned screen_metadata is not the content of this directory's screen_metadata.json: %s" % common.short(res, 300)
+                else:
+                    impl = [9, common.short(res, 200)]
+                    pred = "returned neither None nor the three-key dict: %s" % common.short(res, 300)
+            except IndexError:
+                impl = [1, 98]
+                if not (pd[0] and pd[6] and not pd[1]):
+                    pred = "IndexError although %s" % ("all three required files exist" if pd[0] and pd[1] and pd[6] else
+                                                       "training.screen.h5 or screen_metadata.json is missing (that is the None return)")
+            except Exception as e:      # noqa: BLE001 - any other exception is not among the function's behaviours
+                impl = [1, type(e).__name__]
+                pred = "raised %s: %s" % (type(e).__name__, str(e)[:200])
+        finally:
+            shutil.rmtree(root, ignore_errors=True)
+        missing = [KINDS[kk] for kk in (0, 1, 6) if not pd[kk]]
+        feats = ["validate_initial"] + (["complete"] if not missing else ["missing:" + "+".join(missing)]) \
+            + (["wrong-level-decoy"] if decoys else []) + (["IndexError"] if impl == [1, 98] else []) \
+            + (["trivial"] if not any(pd[kk] for kk in range(7)) and not decoys else [])
+        return dict(wire=[5, [i, j], pd + [[]]], impl=impl, pred=pred, features=feats)
     raise ValueError(k)
 
 
